@@ -1282,14 +1282,16 @@ class Ctx:
             rn, rd = math.isqrt(n), math.isqrt(d)
             if rn * rn == n and rd * rd == d:
                 return SR(Fraction(rn, rd), x.n)
-        key = ("sqrt", x.v if isinstance(x.v, Fraction) else x.v.get_id())
+        # one atom per argument *value*: arguments that normalise to the same term share the atom
+        xs = None if isinstance(x.v, Fraction) else z3.simplify(x.v, som=True)
+        key = ("sqrt", x.v if isinstance(x.v, Fraction) else xs.get_id())
         if key in self._uf_terms:
-            s = self._uf_terms[key]
+            s = self._uf_terms[key][0]
         else:
             s = self._fresh("sqrt")
             xe = term(x.v)
             self.solver.add(s >= 0, z3.Implies(xe >= 0, s * s == xe))
-            self._uf_terms[key] = s
+            self._uf_terms[key] = (s, xs)
         nan = _or(x.n, None if isinstance(x.v, Fraction) else term(x.v) < 0)
         return SR(s, nan)
 
